@@ -1396,7 +1396,9 @@ VmTrap vm_core_execute(VmState *vm) {
                                   "Array index %lld out of bounds [0..%u)", (long long)bad, len);
             }
             uint32_t idx = (uint32_t)idx_v.as.i64;
+            NanoValue removed = arr.as.array->elements[idx];   /* the array's reference to it ends here */
             vm_array_remove(arr.as.array, idx);
+            vm_release(&vm->heap, removed);
             stack_push(vm, arr);
             break;
         }
